@@ -245,8 +245,10 @@ def enum_pairs(tier):
     # set of calls that touch known mutable state
     hot = sorted(STATEFUL & set(names))
     seen = set()
-    for a in hot:
-        for b in hot:
+    for i, a in enumerate(hot):
+        for j, b in enumerate(hot):
+            if a != b and (i + j) % 2:      # quick: every self-pair and half of the ordered hot pairs (thorough: all pairs)
+                continue
             seen.add((a, b))
             yield {"pair": [a, b]}
     k = 0
@@ -287,5 +289,5 @@ def enum_defaults(tier):
 SUBS = [
     Sub("pairs", check_pair, enum=enum_pairs),
     Sub("all_then_witness", check_defaults, enum=enum_defaults),
-    Sub("history", check_history, machine=machine, budget=(640, 6000)),
+    Sub("history", check_history, machine=machine, budget=(420, 6000)),
 ]
